@@ -108,9 +108,29 @@ CHECKS.update({
   'note': 'Open known findings (not small repairs): values with |f| >= 2^31 render as garbage (int32 cast), igris_atof32 has no exponent support and overflows with >= 19 fraction digits, '
           'debug_printdec_double_prec prints wrong fraction digit counts / overflows for large values and precisions. See units/C12/PROPERTY.json.'},
 })
+CHECKS.update({
+ 'C06': {
+  'text': 'The printf engine is verified in layers, each against an ISO C 7.21.6.1 oracle (spec/c06_iso_printf.h, cross-checked natively against glibc on 10^6 cases): print_i for every 64-bit value, '
+          'flag set, width and precision per conversion (d/u/o/x/p) - return == ISO length == number of callback calls, every output segment has the ISO length and characters, all five output loops '
+          'closed by invariants; print_s on an exact-size string (no read past the terminator or the precision); the argument fetch of __printf per conversion and length modifier (value handed to '
+          'print_i equals the ISO conversion of the va_arg) with print_* replaced by contracts; the sprintf/fdprintf wrappers. The directive parser is a BOUNDED stand-in (one symbolic directive '
+          'token of <= 7 characters, 10 in the thorough tier, plus concrete multi-directive formats).',
+  'ref': 'C06', 'technique': 'CBMC function contracts (dfcc) + loop contracts against an ISO printf oracle; modular replacement of print_i/print_s inside __printf',
+  'note': 'Whole __printf with the real print_* does not finish in cbmc: the layers are composed by hand. Unbounded format length / directive count is not covered. Open known findings: '
+          '%#x / %#o of 0 and %c of a NUL byte (repairs are not local edits).'},
+ 'C10': {
+  'text': 'pool_engage is proved for any cell count (loop contract: every cell pushed exactly once, writes inside the zone). All other pool and heap operations are proved INDUCTIVELY IN THE '
+          'HISTORY but BOUNDED IN SIZE (labelled bounded): from every state satisfying the representation invariant - free list a simple path of distinct aligned cells inside the zone, disjoint '
+          'from the live set (pools, capacity <= 6, every free-list order and live subset); address-ordered free list of <= 3 chunks in a 128-byte arena with an arbitrary live block (heap) - one '
+          'operation re-establishes the invariant, returns a block inside the arena that overlaps no live block and no free chunk, leaves live contents untouched, keeps free count == capacity - '
+          'live, and freeing everything returns the break to its start; realloc keeps the common prefix.',
+  'ref': 'C10', 'technique': 'CBMC inductive-step proofs over symbolic free-list states (bounded capacity), loop contract for pool_engage; cxx2c-extracted igris::pool / static_object_pool / lin_malloc',
+  'note': 'The free list is an inductive structure and CBMC has no inductive predicates: capacity / chunk count are bounded (stated in each unit). Open known finding: malloc never fails (no heap '
+          'end in this port): "inside the arena" holds only for requests that fit. Locks dropped (single-threaded semantics).'},
+})
 WIP = 'no proof unit built yet in this session (work in progress; see DESIGN.md for the planned contracts)'
 NOT_APPLICABLE = {
- 'C02': WIP, 'C06': WIP, 'C10': WIP, 'C11': WIP,
+ 'C02': WIP, 'C11': WIP,
  'C15': WIP, 'C19': WIP,
  'C09': 'quantifies over a family of C++ types assembled by template metaprogramming (partial specialisations, SFINAE, '
         'concepts, std::tuple/map/string, virtual archives); CBMC has no usable C++ front end and the mechanical C '
